@@ -231,31 +231,43 @@ TargetUpdate(t) ==
   /\ Commit(ApplyPairs(St, t.pairs, t.soft),
             Label(t.name, "none", {}, {Role(d) : d \in TargetDests(t)}, TargetDests(t)), t.name, [g |-> "none"])
 
+(* Composition: the segment a training loop executes between two observable    *)
+(* boundaries is a sequence of routine calls (on generic batches) and target    *)
+(* actions; its possible results are the relational composition of the steps.   *)
+CallStep(n) == [t |-> "call", n |-> n]
+TargetStep(n) == [t |-> "target", n |-> n]
+TargetNamed(n) == CHOOSE t \in Targets : t.name = n
+StepResults(s, st) ==
+  IF st.t = "call" THEN {Bump(s, C) : C \in Outcomes(RoutineNamed(st.n), "generic")}
+  ELSE {ApplyPairs(s, TargetNamed(st.n).pairs, TargetNamed(st.n).soft)}
+RECURSIVE Results(_, _)
+Results(S, steps) == IF steps = <<>> THEN S ELSE Results(UNION {StepResults(s, steps[1]) : s \in S}, Tail(steps))
+StepTrains(st) == IF st.t = "call" THEN RoutineNamed(st.n).trains ELSE {}
+StepKinds(st) == IF st.t = "call" THEN RoutineNamed(st.n).kind ELSE {Role(d) : d \in TargetDests(TargetNamed(st.n))}
+StepAllowed(st) == IF st.t = "call" THEN Allowed(RoutineNamed(st.n)) ELSE TargetDests(TargetNamed(st.n))
+Composite(name, steps, args) ==
+  /\ calls < MaxCalls
+  /\ \E s \in Results({St}, steps) :
+       Commit(s, Label(name, "generic", UNION {StepTrains(steps[i]) : i \in 1..Len(steps)},
+                       UNION {StepKinds(steps[i]) : i \in 1..Len(steps)},
+                       UNION {StepAllowed(steps[i]) : i \in 1..Len(steps)}), name, args)
+
 (* td7._train_step(epoch): update_sale . td7_update_critic . [td7_update_actor  *)
 (* if epoch % policy_delay = 0] . [actor_target := actor, critic_target :=      *)
 (* critic, fixed_embedding_target := fixed_embedding, fixed_embedding :=        *)
-(* embedding if epoch % target_delay = 0]                                       *)
-TD7TargetPairs == <<<<"actor", "actor_target">>, <<"critic", "critic_target">>,
-                    <<"fixed_embedding", "fixed_embedding_target">>, <<"embedding", "fixed_embedding">>>>
+(* embedding, in this order, if epoch % target_delay = 0]                       *)
+TD7Steps(policyDue, targetDue) ==
+  <<CallStep("update_sale"), CallStep("td7_update_critic")>>
+  \o (IF policyDue THEN <<CallStep("td7_update_actor")>> ELSE <<>>)
+  \o (IF targetDue THEN <<TargetStep("hard_target_net_update(actor, actor_target)"),
+                          TargetStep("hard_target_net_update(critic, critic_target)"),
+                          TargetStep("hard_target_net_update(fixed_embedding, fixed_embedding_target)"),
+                          TargetStep("hard_target_net_update(embedding, fixed_embedding)")>>
+       ELSE <<>>)
 TrainStepTD7(policyDue, targetDue) ==
   /\ Family = "TD7"
-  /\ calls < MaxCalls
-  /\ LET rs == RoutineNamed("update_sale")
-         rc == RoutineNamed("td7_update_critic")
-         ra == RoutineNamed("td7_update_actor")
-         parts == {rs, rc} \cup (IF policyDue THEN {ra} ELSE {})
-         dests == IF targetDue THEN {TD7TargetPairs[i][2] : i \in 1..4} ELSE {}
-     IN \E C1 \in Outcomes(rs, "generic"), C2 \in Outcomes(rc, "generic"),
-           C3 \in (IF policyDue THEN Outcomes(ra, "generic") ELSE {{}}) :
-          LET s1 == Bump(St, C1)
-              s2 == Bump(s1, C2)
-              s3 == Bump(s2, C3)
-              s4 == IF targetDue THEN ApplyPairs(s3, TD7TargetPairs, FALSE) ELSE s3
-          IN Commit(s4,
-                    Label("td7._train_step", "generic", UNION {r.trains : r \in parts},
-                          UNION {r.kind : r \in parts} \cup {Role(d) : d \in dests},
-                          UNION {Allowed(r) : r \in parts} \cup dests),
-                    "td7._train_step", [g |-> "generic", policy_due |-> policyDue, target_due |-> targetDue])
+  /\ Composite("td7._train_step", TD7Steps(policyDue, targetDue),
+               [g |-> "generic", policy_due |-> policyDue, target_due |-> targetDue])
 
 (* evaluating a loss / computing a gradient, and acting, change nothing *)
 Evaluate(f) == /\ UNCHANGED <<ver, nxt, calls>>
